@@ -716,7 +716,8 @@ func (s *Server) pushClient() {
 
 	// collect
 	data := s.tracer.DataLatest()
-	if data == nil {
+	// nothing traced yet (the initial placeholder has no time)
+	if data == nil || data.mTime == nil {
 		return
 	}
 
